@@ -164,6 +164,13 @@ def run(chk):
     chk.cov["random_roundtrips_64"] = r64["n"]
     log("[C19] code W=64 random: %d words both directions, failures %d/%d" % (
         r64["n"], r64["fail_hash_then_inverse"], r64["fail_inverse_then_hash"]))
+    # 3b. words whose intermediate value at a statement boundary is structured (both widths, both directions)
+    for w in (64, 32):
+        rb = code_roundtrips(chk, "boundary%d" % w, ["boundary", "w=%d" % w], w)
+        chk.add("evaluations", rb["n"])
+        chk.cov["boundary_structured_roundtrips_%d" % w] = rb["n"]
+        log("[C19] code W=%d boundary-structured: %d words both directions, failures %d/%d" % (
+            w, rb["n"], rb["fail_hash_then_inverse"], rb["fail_inverse_then_hash"]))
     # 4. code = spec on recorded words (and the round trips on those words)
     code_vs_spec(chk, 64, 1000 if quick else 10000, chk.seed)
     code_vs_spec(chk, 32, 400 if quick else 3000, chk.seed)
